@@ -13,7 +13,7 @@ LIB_UNITS = ['atomiclevelwidth.c', 'atomicweight.c', 'auger_trans.c', 'comptonpr
              'xraylib-radionuclides.c', 'xrayvars.c', 'xrf_cross_sections_aux.c', 'xrayfiles_inline.c']
 
 # per-topic checks whose obligations carry the error protocol / memory-safety side conditions / frame conditions of the functions they encode
-TOPIC = {'quick': ['c05', 'c08', 'c12', 'c10', 'c01', 'c02', 'c06', 'c11', 'c07', 'c14', 'c15'], 'thorough': ['c05', 'c08', 'c12', 'c10', 'c01', 'c02', 'c06', 'c11', 'c07', 'c14', 'c15', 'c09', 'c13']}
+TOPIC = {'quick': ['c05', 'c08', 'c12', 'c10', 'c01', 'c02', 'c06', 'c11', 'c07', 'c14', 'c15', 'c09', 'c13'], 'thorough': ['c05', 'c08', 'c12', 'c10', 'c01', 'c02', 'c06', 'c11', 'c07', 'c14', 'c15', 'c09', 'c13']}
 
 
 def prototypes():
@@ -30,6 +30,7 @@ def sweep(run, prop, keep=lambda oid: True, modules=None):
     """run the topic checks' obligations under property `prop`; returns list of (original id) kept"""
     mods = modules or TOPIC[run.tier if run.tier in TOPIC else 'quick']
     n0 = len(run.obs)
+    run.keep_pred = keep          # obligations the filter drops are not even started (core.cbmc / bcheck.Claims consult it)
     for m in mods:
         mod = importlib.import_module('checks.' + m)
         before = len(run.obs)
@@ -37,6 +38,7 @@ def sweep(run, prop, keep=lambda oid: True, modules=None):
             mod.check(run)
         except Exception as e:
             ob = core.Ob('%s/sweep/%s' % (prop, m), 'framework', [], '', 'sweep of ' + m); ob.reason = 'exception in %s: %r' % (m, e); run.add_ob(ob)
+    run.keep_pred = None
     kept = []
     with run.lock:
         new = run.obs[n0:]; del run.obs[n0:]
@@ -64,6 +66,12 @@ def coverage(run, obs):
 
 LIBC_GLOBAL_STATE = {'setlocale': 'process-global numeric locale', 'srand': 'global PRNG', 'rand': 'global PRNG', 'chdir': 'working directory', 'strtok': 'static tokenizer state',
                      'getenv': 'environment', 'setenv': 'environment', 'putenv': 'environment', 'strerror': 'static message buffer (read-only use)', 'localeconv': 'locale', 'tmpnam': 'static buffer'}
+
+
+# libc routines that store through a pointer argument (index of the destination argument)
+LIBC_WRITERS = {'sprintf': (0,), 'snprintf': (0,), 'vsprintf': (0,), 'vsnprintf': (0,), 'strcpy': (0,), 'strncpy': (0,), 'strcat': (0,), 'strncat': (0,), 'stpcpy': (0,),
+                'memcpy': (0,), 'memmove': (0,), 'memset': (0,), 'llvm.memcpy.p0i8.p0i8.i64': (0,), 'llvm.memset.p0i8.i64': (0,), 'llvm.memmove.p0i8.p0i8.i64': (0,),
+                'fgets': (0,), 'fread': (0,), 'gets': (0,), 'strtok_r': (2,), 'sscanf': (2, 3, 4, 5), 'fscanf': (2, 3, 4, 5), 'getline': (0, 1), 'qsort': (0,)}
 
 
 def ir_frame_scan(run):
@@ -111,6 +119,14 @@ def ir_frame_scan(run):
                                 out.append(dict(kind='read-mutable-static', function=fn.name, unit=u, target=g, detail=ins.text[:100]))
                     elif ins.op in ('call', 'invoke') and ins.callee.kind == 'global' and ins.callee.name in LIBC_GLOBAL_STATE:
                         out.append(dict(kind='libc-global-state', function=fn.name, unit=u, target=ins.callee.name, detail=LIBC_GLOBAL_STATE[ins.callee.name]))
+                    elif ins.op in ('call', 'invoke') and ins.callee.kind == 'global' and ins.callee.name.replace('__', '').replace('_chk', '') in LIBC_WRITERS:
+                        # a libc routine that writes through its destination argument: the destination must not have static storage
+                        cal = ins.callee.name.replace('__', '').replace('_chk', '')
+                        for ai in LIBC_WRITERS[cal]:
+                            if ai < len(ins.args):
+                                g = root(ins.args[ai][1], env)
+                                if g is not None and g in mod.globals and not mod.globals[g]['const']:
+                                    out.append(dict(kind='write-static', function=fn.name, unit=u, target=g, detail='%s writes through argument %d' % (ins.callee.name, ai)))
     return out
 
 
